@@ -330,9 +330,13 @@ def read_requests(data: bytes, host_check=True, max_chunk_line=64):
             return out, Verdict("reject", "malformed HTTP-version", pos)
         if v[5:6] != b"1":
             return out, Verdict("reject", "unsupported major version", pos)
-        if v not in (b"HTTP/1.0", b"HTTP/1.1"):
-            return out, Verdict("either", "HTTP/1.x minor version other than 0/1", pos)
+        # HTTP/1.x with x >= 2: a recipient processes it as the highest minor version it implements (1.1),
+        # so everything that makes an HTTP/1.1 message invalid (missing Host, bad framing) still rejects it;
+        # whether an otherwise valid one is accepted, and its persistence, is left open (EITHER).
+        other_minor = v not in (b"HTTP/1.0", b"HTTP/1.1")
         r.method, r.target, r.version = m.decode("latin-1"), t.decode("latin-1"), v.decode()
+        if other_minor:
+            r.version = "HTTP/1.1"
         # --- header fields
         fields = []
         for ln in lines[1:]:
@@ -405,6 +409,8 @@ def read_requests(data: bytes, host_check=True, max_chunk_line=64):
                 return out, Verdict("reject", "transfer coding other than chunked", pos)
             if r.version == "HTTP/1.0":
                 return out, Verdict("either", "Transfer-Encoding in an HTTP/1.0 message", pos)
+        if other_minor:
+            return out, Verdict("either", "HTTP/1.x minor version other than 0/1", pos)
         exp = vals(b"expect")
         r.expect_continue = any(e.lower() == b"100-continue" for e in exp)
         body_pos = after
